@@ -131,6 +131,9 @@ type frameLoc struct {
 	addr *smt.Term // object/array/map address
 }
 
+// element (struct) type of the backing array of a frame location with key "@elems", by address term
+var elemsType = map[*smt.Term]types.Type{}
+
 // frameSpec: active modifies clause while verifying a target body.
 type frameSpec struct {
 	deny      []frameLoc // preserved locations (checked even when all is set)
@@ -219,6 +222,9 @@ type Exec struct {
 	allocBound *smt.Term
 	lastRetPaths []*smt.Term
 	ghostNames map[string]bool
+	branchMemo    map[*smt.Term]*smt.Term
+	branchDir     string
+	branchQueries int
 	pendingGhost []pendingGhostCheck
 	allocSeq int
 	noSafety int
